@@ -409,6 +409,11 @@ def replay_generator(chk=None):
 def merge_tree_part(chk, kinds=("hll",)):
     """the library's own merge tree (used by C01..C04: 'merges in any tree' / 'the shape of the merge
     tree' include the tree that parallel_merging builds)"""
+    kinds = tuple(k for k in kinds if ("merge-tree", k) not in chk.done)
+    for k in kinds:
+        chk.done.add(("merge-tree", k))
+    if not kinds:
+        return
     ex = _helpers.make_exec(chk, {("process-start",): start_hook})
     try:
         check_parallel_merging(chk, ex, None, kinds=tuple(kinds))
@@ -421,6 +426,9 @@ def partition_part(chk):
     """the queue side of parallel_add (used by C02: 'how the stream is partitioned across sketches'):
     every item is queued once followed by one pill per worker; a worker applies the callback once per
     received item and stops only at the pill"""
+    if ("partition",) in chk.done:
+        return
+    chk.done.add(("partition",))
     ex = _helpers.make_exec(chk, {("process-start",): start_hook})
     for f in (check_fill_queue, lambda c, e, fo: check_worker(c, e, fo, False, 2, "2 items")):
         try:
@@ -436,6 +444,7 @@ def run(chk):
         return None
 
     ex = _helpers.make_exec(chk, {("process-start",): start_hook})
+    chk.done.update({("partition",), ("merge-tree", "hll"), ("merge-tree", "cms"), ("merge-tree", "hh")})
     for f in (check_fill_queue, lambda c, e, fo: check_worker(c, e, fo, False, 2, "2 items"), check_parallel_merging, check_parallel_add):
         try:
             f(chk, ex, found)
